@@ -279,6 +279,49 @@ fn max_dimacs(ty: &str) -> String {
     }
 }
 
+/// Text-level oracles for the result of a read schedule that differs from the one-shot run
+/// (besides the C01 failure this difference already is): what the other properties say about it.
+pub fn variant_oracles(
+    delivered: &[u8], fault: bool, sname: &str, text: &str, expect: Option<&String>,
+    tok: Option<(usize, usize, usize)>, text_lines: bool,
+) -> Vec<String> {
+    let mut fails = vec![];
+    let fin = text.rsplit('|').next().unwrap_or("");
+    if fin == "E:panic" {
+        fails.push(format!("C05:parser panicked under schedule {}", sname));
+    }
+    if fault && fin == "END" {
+        fails.push(format!("C04:source failed but the input was reported as completely parsed (schedule {})", sname));
+    }
+    if let (Some(x), false) = (expect, fault) {
+        if text != x {
+            fails.push(format!("C03:under schedule {} parsed {} but the written value is {}", sname, text, x));
+            fails.push(format!("C07:under schedule {} parsed {} but the rendered value is {}", sname, text, x));
+        }
+    }
+    if text_lines {
+        if let Some(rest) = fin.strip_prefix("E:syn:") {
+            if let Some((l, col)) = rest.split_once(':') {
+                if let (Ok(l), Ok(col)) = (l.parse::<usize>(), col.parse::<usize>()) {
+                    let mut lines: Vec<&[u8]> = delivered.split(|b| *b == b'\n').collect();
+                    if lines.last().map(|l| l.is_empty()).unwrap_or(false) {
+                        lines.pop();
+                    }
+                    let len_of = |l: usize| if l >= 1 && l <= lines.len() { lines[l - 1].len() } else { 0 };
+                    if l < 1 || l > lines.len() + 1 || col < 1 || col > len_of(l) + 1 {
+                        fails.push(format!("C08:error {}:{} outside the input (schedule {})", l, col, sname));
+                    } else if let Some((tl, tc, tn)) = tok {
+                        if l != tl || col < tc || col > tc + tn {
+                            fails.push(format!("C08:error at {}:{} but the corrupted token is at {}:{}..{} (schedule {})", l, col, tl, tc, tc + tn, sname));
+                        }
+                    }
+                }
+            }
+        }
+    }
+    fails
+}
+
 // ------------------------------------------------------------------ the case runner
 
 pub struct Case {
